@@ -11,7 +11,7 @@ import (
 
 func init() {
 	register("C15", "Decided: the structural facts that ARE the argument — an atomically incremented 32-bit counter truncated to 16 bits yields pairwise different values for any 65536 consecutive draws, and skipping 0 costs one draw. R-C15-1 idLast is touched only as &c.idLast operand of sync/atomic calls; newID draws with AddUint32(&c.idLast, odd constant) and derives the id from that result alone by truncation; StoreUint32 occurs only in initID, reachable only from init(); R-C15-2 every return of newID is either the draw on the `id != 0` edge or a fresh draw; R-C15-3 subscribe/unsubscribe draw exactly once, before registration, and use that value as key and packet id; publish draws only when Message.ID == 0 (a caller-chosen id is kept, also in the queued copy); R-C15-4 the seed interval is inside [1, 65535]; R-C15-5 Message.ID is written only in the publish implementation, only when it is 0, from newID() — an identifier the caller chose is never replaced. The counter is followed through pointer conversions and into helper methods that receive its address. Not decided: more than 65535 draws while one request stays outstanding; collisions with caller-supplied ids.", checkC15)
-	register("C19", "Decided: R-C19-1 wrapErrorImpl keeps the cause (Err field = parameter; nil and io.EOF pass through unchanged) and all wrappers delegate to it; wrapErrorWithRetry embeds the same *Error; R-C19-2 method-set witnesses (Error/Unwrap/Is on *Error, promoted on *errorWithRetry which implements ErrorWithRetry, Unwrap on *ConnectionError, RequestTimeoutError produced by the request context); R-C19-3 error-construction discipline: every error returned by library code is nil, a passed-through error, a sentinel, a wrapError* result, or a library error struct — never a fresh fmt.Errorf/errors.New that loses the cause; R-C19-4 the retry handle re-issues the same request on the client it is given; R-C19-5 a cancelled caller context is reported as that context's error (request waits and KeepAlive's prioritised classification); R-C19-6 an expired ResponseTimeout is identifiable: every context bounded by ResponseTimeout is the requestContext wrapper and its Err() yields RequestTimeoutError whenever the bound can have expired. NOT decided: the chain-walking semantics of (*Error).Is (a data-dependent loop with reflection).", checkC19)
+	register("C19", "Decided: R-C19-1 wrapErrorImpl keeps the cause (Err field = parameter; nil and io.EOF pass through unchanged) and all wrappers delegate to it; wrapErrorWithRetry embeds the same *Error; R-C19-2 method-set witnesses (Error/Unwrap/Is on *Error, promoted on *errorWithRetry which implements ErrorWithRetry, Unwrap on *ConnectionError, RequestTimeoutError produced by the request context); R-C19-3 error-construction discipline: every error returned by library code is nil, a passed-through error, a sentinel, a wrapError* result, or a library error struct — never a fresh fmt.Errorf/errors.New that loses the cause; R-C19-4 the retry handle re-issues the same request on the client it is given; R-C19-5 a cancelled caller context is reported as that context's error (request waits and KeepAlive's prioritised classification); R-C19-6 an expired ResponseTimeout is identifiable: every context bounded by ResponseTimeout is the requestContext wrapper and its Err() yields RequestTimeoutError whenever the bound can have expired. R-C19-7 every reflect.Value.Elem() the chain walk of (*Error).Is can reach is dominated by a Kind() == reflect.Ptr test of the same error (no panic on a chain ending in a value-typed error such as context.DeadlineExceeded). NOT decided: the rest of the chain-walking semantics of (*Error).Is (a data-dependent loop with reflection).", checkC19)
 }
 
 func checkC15(r *Run) {
@@ -214,6 +214,8 @@ func checkC19(r *Run) {
 	r5 := r.Rule("R-C19-5", "a cancelled caller context is reported as that context's error (request waits; KeepAlive's prioritised classification)")
 	r6 := r.Rule("R-C19-6", "an expired ResponseTimeout is identifiable: every context bounded by ResponseTimeout is the requestContext wrapper, whose Err() yields RequestTimeoutError whenever the bound can have expired")
 	c.ruleTimeoutIdentity(r6)
+	r7 := r.Rule("R-C19-7", "the chain walk of (*Error).Is dereferences an error by reflection only after testing that it is a pointer (errors.Is answers, never panics, for chains ending in a value-typed error)")
+	c.ruleReflectDerefGuarded(r7)
 	r3.Floor(25)
 	r4.Floor(8)
 	// --- R-C19-1
